@@ -28,7 +28,7 @@
 //	 zr=<k> (repeatable: the k-th body call returns 0,nil)
 //	 stop=<k> (consumer closes after k reads)  more=<k> (k reads after the first error)
 //	OUT: per message  m<j> cid=x.. ep=x.. t0= t1= U=<n>:<e>,.. W=<n>:<e>,.. WB=x.. [P=PANIC]
-//	     then RAW=x.. (everything written to the stream's writer), then the
+//	     then per sink section (see sinks.go)  SINK=<name> NW=<writes> RAW=x.. and the
 //	     frames marbl.Reader decodes from it, as for RD.
 package main
 
@@ -312,9 +312,10 @@ type message struct {
 }
 
 type caseSpec struct {
-	via  string
-	thr  int
-	msgs []*message
+	via       string
+	thr       int
+	fast, lag int // V=h: websocket subscribers
+	msgs      []*message
 }
 
 func unhexS(v string) (string, bool) {
@@ -323,7 +324,7 @@ func unhexS(v string) (string, bool) {
 }
 
 func parseMS(in []string) (*caseSpec, bool) {
-	cs := &caseSpec{via: "s", thr: 1}
+	cs := &caseSpec{via: "s", thr: 1, fast: 1, lag: 1}
 	var m *message
 	for _, t := range in {
 		if t == "M" {
@@ -353,6 +354,12 @@ func parseMS(in []string) (*caseSpec, bool) {
 					return nil, false
 				}
 				cs.thr = n
+			case "S":
+				var f, l int
+				if _, err := fmt.Sscanf(v, "%d:%d", &f, &l); err != nil || f < 0 || l < 0 || f+l < 1 || f+l > 8 {
+					return nil, false
+				}
+				cs.fast, cs.lag = f, l
 			default:
 				return nil, false
 			}
@@ -460,7 +467,7 @@ func parseMS(in []string) (*caseSpec, bool) {
 			return nil, false
 		}
 	}
-	if len(cs.msgs) == 0 || (cs.via != "s" && cs.via != "m") {
+	if len(cs.msgs) == 0 || !strings.Contains("s m r h", cs.via) || len(cs.via) != 1 {
 		return nil, false
 	}
 	return cs, true
@@ -631,12 +638,19 @@ func runMS(in []string) []string {
 		return []string{"badcase"}
 	}
 	lb := &lockedBuf{}
+	var sk sink = lb
+	switch cs.via {
+	case "r":
+		sk = &retainSink{}
+	case "h":
+		sk = newHandlerSink(cs.fast, cs.lag)
+	}
 	var s *marbl.Stream
 	var mod *marbl.Modifier
 	if cs.via == "m" {
 		mod = marbl.NewModifier(lb)
 	} else {
-		s = marbl.NewStream(lb)
+		s = marbl.NewStream(sk)
 	}
 	outs := make([][]string, len(cs.msgs))
 	done := make(chan struct{})
@@ -685,12 +699,7 @@ func runMS(in []string) []string {
 		out = append(out, fmt.Sprintf("m%d", j))
 		out = append(out, o...)
 	}
-	lb.mu.Lock()
-	raw := append([]byte(nil), lb.b.Bytes()...)
-	nw := lb.writes
-	lb.mu.Unlock()
-	out = append(out, fmt.Sprintf("NW=%d", nw), "RAW="+hx.Hex(raw))
-	return append(out, readAll(raw)...)
+	return append(out, sectionTokens(sk.finish())...)
 }
 
 // ---------------------------------------------------------------- cases
@@ -1026,6 +1035,79 @@ func main() {
 			in = append(in, "M", "k=Q", "id="+hexTok(pre+fmt.Sprintf("%08d", j+1)), fmt.Sprintf("bd=%d:%d", r.Range(1, 50), r.Intn(1<<30)))
 		}
 		emit("idtrunc", in)
+	}
+
+	// ---- 5c. concurrent messages whose body chunks are >= 4 KiB, on every kind
+	// of sink: plain buffer, retaining writer, and the real marbl.Handler with
+	// fast and lagging websocket subscribers
+	bigBufs := []int{4096, 4097, 8192, 16384, 32768, 5000}
+	bigMsgs := func(r *hx.RNG, nm int, maxBody int) []string {
+		var in []string
+		for j := 0; j < nm; j++ {
+			sz := r.Range(4096, maxBody)
+			in = append(in, "M", "id="+hexTok(fmt.Sprintf("c%07d", j)))
+			if r.Chance(1, 3) {
+				in = append(in, "k=S")
+			}
+			if r.Chance(1, 2) {
+				in = append(in, "h="+hexTok("X-N")+":"+hexTok(strconv.Itoa(j)))
+			}
+			in = append(in, fmt.Sprintf("bd=%d:%d", sz, r.Intn(1<<30)))
+			for i, n := 0, r.Range(1, 2); i < n; i++ {
+				in = append(in, fmt.Sprintf("rb=%d", bigBufs[r.Intn(len(bigBufs))]))
+			}
+			if r.Chance(1, 4) {
+				in = append(in, "eof=d")
+			}
+			if r.Chance(1, 6) {
+				in = append(in, fmt.Sprintf("ck=%d", r.Range(4096, 9000)))
+			}
+		}
+		return in
+	}
+	for k := 0; k < 8*scale; k++ {
+		r := rng.Fork()
+		thr := r.Range(2, 16)
+		in := append([]string{"MS", fmt.Sprintf("T=%d", thr)}, bigMsgs(r, r.Range(thr, thr+4), 40000)...)
+		emit("concbig", in)
+	}
+	for k := 0; k < 8*scale; k++ {
+		r := rng.Fork()
+		thr := r.Range(1, 8)
+		in := append([]string{"MS", "V=r", fmt.Sprintf("T=%d", thr)}, bigMsgs(r, r.Range(thr, thr+3), 40000)...)
+		emit("retain", in)
+	}
+	for k := 0; k < 4*scale; k++ {
+		r := rng.Fork()
+		in := []string{"MS", "V=r", fmt.Sprintf("T=%d", r.Range(1, 3))}
+		for j, nm := 0, r.Range(1, 3); j < nm; j++ {
+			in = append(in, "M")
+			in = append(in, randMessage(r, randID(r), 600, 700)...)
+		}
+		emit("retain", in)
+	}
+	for k := 0; k < 12*scale; k++ {
+		r := rng.Fork()
+		thr := r.Range(1, 8)
+		subs := []string{"S=1:1", "S=1:1", "S=0:2", "S=2:1", "S=1:0", "S=3:2"}[r.Intn(6)]
+		// the lagging subscriber must fall behind: more bytes than its 4 KiB
+		// receive buffer plus the server's send buffer can hold
+		nm := thr
+		if nm < 5 {
+			nm = 5
+		}
+		in := append([]string{"MS", "V=h", subs, fmt.Sprintf("T=%d", thr)}, bigMsgs(r, r.Range(nm, nm+3), 100000)...)
+		cfg.Count("handler_subs=" + subs)
+		emit("handler", in)
+	}
+	for k := 0; k < 6*scale; k++ {
+		r := rng.Fork()
+		in := []string{"MS", "V=h", []string{"S=1:1", "S=2:0", "S=0:1"}[r.Intn(3)], fmt.Sprintf("T=%d", r.Range(1, 4))}
+		for j, nm := 0, r.Range(1, 4); j < nm; j++ {
+			in = append(in, "M")
+			in = append(in, randMessage(r, randID(r), 3000, 2000)...)
+		}
+		emit("handler", in)
 	}
 
 	// ---- 6. reader robustness
